@@ -208,6 +208,23 @@ theorem alpha_body (ρ : Name → Name) (hρ : ∀ a b, ρ a = ρ b → a = b) (
   have := (alpha_body_aux ρ hρ fuel body [] ⟨.macroBoundary, true, []⟩ outer outer' k rfl hh).1
   simpa [Frame.rename] using this
 
+/-- **α-equivalence of expansions with `unhygienic` islands (no-capture hypothesis).** `D` are the
+names the macro body declares, `U` the names occurring inside its `unhygienic` islands (caller
+code, not renamed). If no declared name is an island name (no capture) and the new names `ρ d`
+are fresh for the islands, then checking the body and checking the renamed body as
+`MacroBoundaryNode(…)` on the SAME caller stack resolve every identifier occurrence — hygienic
+and unhygienic — to the same binding. (Without the no-capture hypothesis this is false:
+`unhygienic_capture_witness`.) -/
+theorem alpha_body_islands_partial (ρ : Name → Name) (hρ : ∀ a b, ρ a = ρ b → a = b)
+    (D U : Name → Prop) (hDU : ∀ n, D n → ¬ U n) (hρU : ∀ n, D n → ¬ U (ρ n))
+    (fuel : Nat) (body : List Tm) (outer : Stack) (k : Nat) (hok : okIslands D U fuel body) :
+    (checkTms fuel (renameTms ρ fuel body) (⟨.macroBoundary, true, []⟩ :: outer) k).1 =
+      (checkTms fuel body (⟨.macroBoundary, true, []⟩ :: outer) k).1 := by
+  have hf : ∀ f ∈ ([] : Stack) ++ [(⟨.macroBoundary, true, []⟩ : Frame)], FrameOk D f := by
+    intro f h; simp at h; rw [h]; exact ⟨rfl, by intro p hp; cases hp⟩
+  have := (alpha_islands_aux ρ hρ D U hDU hρU fuel body [] ⟨.macroBoundary, true, []⟩ outer k rfl hok hf).1
+  simpa [Frame.rename] using this
+
 /-- … and the caller's stack is untouched by checking the body (any body, islands included) -/
 theorem body_leaves_caller_stack (fuel : Nat) (body : List Tm) (outer : Stack) (k : Nat) :
     ((checkTms fuel body (⟨.macroBoundary, true, []⟩ :: outer) k).2.1).tail = outer := by
@@ -215,6 +232,15 @@ theorem body_leaves_caller_stack (fuel : Nat) (body : List Tm) (outer : Stack) (
   rw [h]; rfl
 
 /-! ### non-vacuity -/
+
+/-- the hypotheses of `alpha_body_islands_partial` are met by a body that declares 0 and 2, reads
+them hygienically and reads the caller's 1 inside an island -/
+example :
+    let body : List Tm := [.decl 0, .uread 1, .block .default [.decl 2, .read 0, .uread 1], .read 2]
+    okIslands (fun n => n = 0 ∨ n = 2) (fun n => n = 1) 10 body ∧
+    (checkTms 10 body (⟨.macroBoundary, true, []⟩ :: [⟨.default, false, [(0, 100), (1, 101)]⟩]) 0).1 =
+      [some 101, some 0, some 101, none] := by
+  refine ⟨by simp [okIslands], by decide⟩
 
 /-- a body with a nested conditional block, shadowing and reads; caller binds the same names -/
 example :
